@@ -4,7 +4,9 @@ package main
 //
 // Every step of a random straight-line program on the real ckks.Evaluator is executed twice:
 //
-//  1. on *transparent* operands (c0 a monomial, c1.. = 0) that carry exactly the metadata of the real
+//  1. on *transparent* operands (EVERY component a distinct monomial: op0.c_i = X^(1+4i), op1.c_i = X^(2+4i),
+//     receiver.c_i = X^(4+4i); for product operations op1 has c0 only, so that nothing needs relinearising)
+//     that carry exactly the metadata of the real
 //     operands: the output metadata (level, degree, scale mantissa/exponent, LogDimensions.Cols) and
 //     the exact integer effect of the call (multipliers applied to op0 / op1 / the previous opOut,
 //     RNS constants) are read back from the coefficients -> TIE line, the Lean model
@@ -152,16 +154,23 @@ func (m c06M) tok() string {
 	return fmt.Sprintf("%d,%d,%s,%d", m.level, m.degree, c06Dy(&m.scale.Value), m.logSlots)
 }
 
-// transp builds a ciphertext with metadata m whose c0 is the monomial X^idx (idx<0: zero) and c1.. = 0.
-func (e *c06Env) transp(m c06M, idx int) *rlwe.Ciphertext {
+// transp builds a ciphertext with metadata m whose component i is the monomial X^(base+4i)
+// (base<0: all zero; onlyC0: components >= 1 are zero).
+func (e *c06Env) transp(m c06M, base int, onlyC0 bool) *rlwe.Ciphertext {
 	ct := ckks.NewCiphertext(e.params, m.degree, m.level)
 	ct.Scale = c06Scale(m.scale)
 	ct.LogDimensions.Cols = m.logSlots
-	if idx >= 0 {
-		for i := 0; i <= m.level; i++ {
-			ct.Value[0].Coeffs[i][idx] = 1
+	if base >= 0 {
+		r := e.params.RingQ().AtLevel(m.level)
+		for k := 0; k <= m.degree; k++ {
+			if onlyC0 && k > 0 {
+				break
+			}
+			for i := 0; i <= m.level; i++ {
+				ct.Value[k].Coeffs[i][base+4*k] = 1
+			}
+			r.NTT(ct.Value[k], ct.Value[k])
 		}
-		e.params.RingQ().AtLevel(m.level).NTT(ct.Value[0], ct.Value[0])
 	}
 	return ct
 }
@@ -177,11 +186,11 @@ func (e *c06Env) transpPt(m c06M, idx int) *rlwe.Plaintext {
 	return pt
 }
 
-// coef returns the centred integer coefficients of c0 at the given indices.
-func (e *c06Env) coef(ct *rlwe.Ciphertext, idx ...int) []string {
+// coef returns the centred integer coefficients of component comp at the given indices.
+func (e *c06Env) coef(ct *rlwe.Ciphertext, comp int, idx ...int) []string {
 	r := e.params.RingQ().AtLevel(ct.Level())
 	tmp := r.NewPoly()
-	r.INTT(ct.Value[0], tmp)
+	r.INTT(ct.Value[comp], tmp)
 	bi := make([]*big.Int, e.N)
 	r.PolyToBigint(tmp, 1, bi)
 	Q := r.ModulusAtLevel[ct.Level()]
@@ -340,34 +349,52 @@ func (e *c06Env) line(op *c06Op, a, b, o c06M, eff bool) string {
 	return fmt.Sprintf("%s %s %s %s", op.kind, e.ptok, args, es)
 }
 
-// effIdx: which coefficients of the receiver's c0 carry the effect, given the monomial layout
-// op0 = X, op1 = X^2, old receiver = X^4.
-func (e *c06Env) effIdx(kind string) []int {
+// effParts reads the integer effect of the call from the result: for every component i the
+// coefficients at the exponents of op0.c_i (1+4i), op1.c_i (2+4i), old receiver c_i (4+4i) and, for
+// complex constants, at N/2 + exponent ("0" where the operand has no such component).
+func (e *c06Env) effParts(op *c06Op, res *rlwe.Ciphertext, am, bm, om c06M) []string {
 	h := e.N / 2
-	switch kind {
-	case "addelt":
-		return []int{1, 2}
-	case "addsc":
-		if e.ci {
-			return []int{0}
+	D := res.Degree()
+	one := func(comp, idx int, ok bool) string {
+		if !ok {
+			return "0"
 		}
-		return []int{0, h}
-	case "mulsc":
-		if e.ci {
-			return []int{1}
-		}
-		return []int{1, h + 1}
-	case "mtasc":
-		if e.ci {
-			return []int{4, 1}
-		}
-		return []int{4, 1, h + 1}
-	case "mtaelt", "mtavec":
-		return []int{4}
-	case "setscale", "scaleup":
-		return []int{1}
+		return e.coef(res, comp, idx)[0]
 	}
-	return nil
+	bDeg := bm.degree
+	if op.bIsPt {
+		bDeg = 0
+	}
+	freshO := op.alias == 'f' && !op.useNew
+	var parts []string
+	switch op.kind {
+	case "addelt":
+		for i := 0; i <= D; i++ {
+			parts = append(parts, one(i, 1+4*i, i <= am.degree), one(i, 2+4*i, i <= bDeg), one(i, 4+4*i, freshO && i <= om.degree))
+		}
+	case "addsc":
+		parts = append(parts, one(0, 0, true), one(0, h, !e.ci))
+		for i := 0; i <= D; i++ {
+			parts = append(parts, one(i, 1+4*i, true))
+		}
+	case "mulsc":
+		for i := 0; i <= D; i++ {
+			parts = append(parts, one(i, 1+4*i, true), one(i, h+1+4*i, !e.ci))
+		}
+	case "mtasc":
+		for i := 0; i <= D; i++ {
+			parts = append(parts, one(i, 4+4*i, i <= om.degree), one(i, 1+4*i, i <= am.degree), one(i, h+1+4*i, !e.ci && i <= am.degree))
+		}
+	case "mtaelt", "mtavec":
+		for i := 0; i <= D; i++ {
+			parts = append(parts, one(i, 4+4*i, i <= om.degree))
+		}
+	case "setscale", "scaleup":
+		for i := 0; i <= D; i++ {
+			parts = append(parts, one(i, 1+4*i, true))
+		}
+	}
+	return parts
 }
 
 // tie runs the op on transparent operands and emits the tie line. Returns the output metadata token
@@ -377,13 +404,14 @@ func (e *c06Env) tie(c *Ctx, op *c06Op, am, bm, om c06M) string {
 	if op.kind == "mtavec" {
 		aIdx = -1
 	}
-	a := e.transp(am, aIdx)
+	a := e.transp(am, aIdx, false)
+	product := op.kind == "mulelt" || op.kind == "mtaelt"
 	var b rlwe.Operand
 	var bct *rlwe.Ciphertext
 	if op.bIsPt {
 		b = e.transpPt(bm, 2)
 	} else if op.kind == "addelt" || op.kind == "mulelt" || op.kind == "mtaelt" {
-		bct = e.transp(bm, 2)
+		bct = e.transp(bm, 2, product)
 		b = bct
 	}
 	var o *rlwe.Ciphertext
@@ -393,10 +421,9 @@ func (e *c06Env) tie(c *Ctx, op *c06Op, am, bm, om c06M) string {
 	case '1':
 		o = bct
 	default:
-		o = e.transp(om, 4)
+		o = e.transp(om, 4, false)
 	}
 	eff := !op.effOff
-	idx := e.effIdx(op.kind)
 	var metaTok string
 	out := Try(func() string {
 		res, err := e.exec(op, a, b, o)
@@ -412,11 +439,8 @@ func (e *c06Env) tie(c *Ctx, op *c06Op, am, bm, om c06M) string {
 			var parts []string
 			if op.kind == "rescaleto" {
 				parts = []string{I(am.level - res.Level())}
-			} else if len(idx) > 0 {
-				parts = e.coef(res, idx...)
-				if e.ci && (op.kind == "addsc" || op.kind == "mulsc" || op.kind == "mtasc") {
-					parts = append(parts, "0")
-				}
+			} else {
+				parts = e.effParts(op, res, am, bm, om)
 			}
 			if len(parts) == 0 {
 				s += " -"
@@ -671,13 +695,16 @@ func (e *c06Env) step(c *Ctx, regs []*c06Reg, prog string) {
 			}
 			pt := ckks.NewPlaintext(e.params, lvl)
 			pt.LogDimensions.Cols = ls
-			switch c.rng.Intn(4) {
+			switch c.rng.Intn(5) {
 			case 0:
 				pt.Scale = c06Scale(A.ct.Scale)
 			case 1:
 				pt.Scale = rlwe.NewScale(math.Exp2(float64(e.logDflt)) * (1 + float64(c.rng.Intn(8))/4))
 			case 2:
 				pt.Scale = rlwe.NewScale(e.params.Q()[lvl])
+			case 3:
+				// operand scale = integer multiple (2, 3, 2^k) of the ciphertext's: exact alignment expected
+				pt.Scale = A.ct.Scale.Mul(rlwe.NewScale([]float64{2, 3, 4, 16, 1024}[c.rng.Intn(5)]))
 			}
 			bWant = e.randVals(c, 1<<ls, 1)
 			if err := e.ecd.Encode(bWant, pt); err != nil {
@@ -1085,11 +1112,13 @@ func genC06(c *Ctx) {
 				ls = c.rng.Intn(e.logMax + 1) // sparse packing, down to one slot
 			}
 			scale := e.params.DefaultScale()
-			switch c.rng.Intn(6) {
+			switch c.rng.Intn(7) {
 			case 0: // non-integer ratio to the default scale
 				scale = rlwe.NewScale(math.Exp2(float64(e.logDflt)) * (1 + float64(1+c.rng.Intn(7))/8))
 			case 1: // integer ratio
 				scale = rlwe.NewScale(math.Exp2(float64(e.logDflt - 3)))
+			case 2: // integer ratios 2, 3, 2^k above the default
+				scale = e.params.DefaultScale().Mul(rlwe.NewScale([]float64{2, 3, 4, 16}[c.rng.Intn(4)]))
 			}
 			regs[i] = e.fresh(c, lvl, ls, scale)
 		}
@@ -1098,7 +1127,97 @@ func genC06(c *Ctx) {
 		}
 		c.Count("programs:" + e.tag)
 	}
+	c06Directed(c, envs)
 	c06Malformed(c, envs)
+}
+
+// c06Directed: Add/Sub of operands of DIFFERENT degree whose scales differ by an integer ratio (2, 3, 2^k),
+// the operand of higher degree having the smaller scale (so that it is the one that gets multiplied), with a
+// fresh receiver, the ...New variant, and both in-place forms: tie on all components + decrypted precision.
+func c06Directed(c *Ctx, envs []*c06Env) {
+	for _, e := range envs {
+		ds := e.params.DefaultScale()
+		lvl := e.params.MaxLevel()
+		for _, r := range []float64{2, 3, 16} {
+			for _, shape := range []string{"ct+pt", "deg2+deg1"} {
+				for _, recv := range []string{"f", "new", "0", "1"} {
+					for _, sub := range []bool{false, true} {
+						if shape == "ct+pt" && recv == "1" {
+							continue
+						}
+						var A, B *c06Reg
+						var bOp rlwe.Operand
+						var bWant []complex128
+						op := &c06Op{kind: "addelt", sub: sub, alias: 'f'}
+						if shape == "ct+pt" {
+							A = e.fresh(c, lvl, e.logMax, ds)
+							bWant = e.randVals(c, 1<<e.logMax, 1)
+							pt := ckks.NewPlaintext(e.params, lvl)
+							pt.Scale = ds.Mul(rlwe.NewScale(r))
+							if err := e.ecd.Encode(bWant, pt); err != nil {
+								panic(err)
+							}
+							bOp, op.bIsPt = pt, true
+						} else {
+							x, y := e.fresh(c, lvl, e.logMax, ds), e.fresh(c, lvl, e.logMax, ds)
+							prod, err := e.eval.MulNew(x.ct, y.ct)
+							if err != nil {
+								panic(err)
+							}
+							w := make([]complex128, len(x.want))
+							for i := range w {
+								w[i] = x.want[i] * y.want[i]
+							}
+							A = &c06Reg{ct: prod, want: w}
+							B = e.fresh(c, lvl, e.logMax, prod.Scale.Mul(rlwe.NewScale(r)))
+							bOp, bWant = B.ct, B.want
+						}
+						am := c06MetaOf(A.ct.El())
+						var bm c06M
+						if op.bIsPt {
+							bm = c06MetaOf(bOp.(*rlwe.Plaintext).El())
+						} else {
+							bm = c06MetaOf(B.ct.El())
+						}
+						om := c06M{am.level, am.degree, e.logMax, ds}
+						var oct *rlwe.Ciphertext
+						switch recv {
+						case "f":
+							oct = ckks.NewCiphertext(e.params, am.degree, am.level)
+						case "new":
+							op.useNew = true
+						case "0":
+							op.alias, oct, om = '0', A.ct, am
+						case "1":
+							op.alias, oct, om = '1', B.ct, bm
+						}
+						e.tie(c, op, am, bm, om)
+						args := fmt.Sprintf("%s %s ratio=%g recv=%s sub=%v", e.tag, shape, r, recv, sub)
+						d := Try(func() string {
+							res, err := e.exec(op, A.ct, bOp, oct)
+							if err != nil {
+								return "error"
+							}
+							have := e.decode(res)
+							tol := 64*e.noiseTerm(ds) + math.Exp2(-40)
+							sg := complex(1, 0)
+							if sub {
+								sg = -1
+							}
+							for i := range have {
+								if x := cmplx.Abs(have[i] - (A.want[i] + sg*bWant[i])); !(x <= tol) {
+									return fmt.Sprintf("slot=%d log2err=%d log2tol=%d degree=%d", i, int(math.Ceil(math.Log2(x))), int(math.Ceil(math.Log2(tol))), res.Degree())
+								}
+							}
+							return ""
+						})
+						c.Probe("program_precision", args, "C06/precision:addelt-degree-scale", d)
+						c.Count("directed:" + shape + ":" + recv)
+					}
+				}
+			}
+		}
+	}
 }
 
 // c06Malformed: boundary / malformed calls (documented errors must be errors, not panics).
